@@ -172,3 +172,9 @@ def mark(e):
 
 def is_program_exc(e):
     return getattr(e, "_psx_program", False)
+
+
+class CostLimitExceeded(Exception):
+    """the code under analysis executed more steps than the harness allows for this input (C19): raised as a program
+    exception both by the interpreter (interpreted statements + calls + comprehension iterations) and by the native
+    replay (traced lines + Python calls + C calls inside productmd)"""
